@@ -21,7 +21,7 @@ def f12_tree():
 
 def run(tier):
     C = Check('C03', tier)
-    C.prove('Properties/C03.v', bridges={'Properties/C03T.v': [], 'Properties/C03W.v': [], 'Model/Recover.v': [], 'Properties/C03R.v': []})
+    C.prove('Properties/C03.v', bridges={'Properties/C03T.v': [], 'Properties/C03W.v': [], 'Model/Recover.v': [], 'Properties/C03R.v': [], 'Properties/C19R.v': []})
     C.cov['tie']['protocol_code_generator + generated code'] = ('correspondence-only: real generator + generated deserializers executed; reference semantics '
                                                                'Model/Elab.v + Model/Deser.v over the reader model R')
     quick = tier == 'quick'
